@@ -125,22 +125,29 @@ func init() {
 		Desc: "SourceRunner.processEvents, barrier case: the cursor snapshot (createCheckpoint -> SourceReader.Checkpoint) precedes, with its error tested, the send of the barrier on outputStream",
 		Run: func(r *Run) {
 			f := r.P.Func("workers/sourcerunner", "(*SourceRunner).processEvents")
-			create := r.P.Func("workers/sourcerunner", "(*SourceRunner).createCheckpoint")
+			create := r.P.TryFunc("workers/sourcerunner", "(*SourceRunner).createCheckpoint")
 			readerCk := r.P.FuncObj("connectors", "SourceReader.Checkpoint")
 			out := r.P.Field("workers/sourcerunner", "SourceRunner", "outputStream")
 			barrierT := r.P.TypeName("proto/workerpb", "Event_CheckpointBarrier")
-			// wrapper summary: createCheckpoint must always call SourceReader.Checkpoint
-			if !r.alwaysDoes(create, callTo(readerCk)) {
-				r.Fail(create.Name()+":reader.Checkpoint", create.Decl.Pos(), nil, "createCheckpoint does not call SourceReader.Checkpoint on every path: the reported split positions would not be the reader's cursors")
+			// the snapshot event: the wrapper createCheckpoint (which must always call
+			// SourceReader.Checkpoint), or — when the wrapper has been inlined into the event loop —
+			// SourceReader.Checkpoint itself
+			isSnapshot := callTo(readerCk)
+			snapName := "sourceReader.Checkpoint"
+			if create != nil {
+				if !r.alwaysDoes(create, callTo(readerCk)) {
+					r.Fail(create.Name()+":reader.Checkpoint", create.Decl.Pos(), nil, "createCheckpoint does not call SourceReader.Checkpoint on every path: the reported split positions would not be the reader's cursors")
+				}
+				r.Site(create.Decl.Pos(), "wrapper createCheckpoint always performs SourceReader.Checkpoint")
+				isSnapshot, snapName = callTo(create.Obj), "createCheckpoint"
 			}
-			r.Site(create.Decl.Pos(), "wrapper createCheckpoint always performs SourceReader.Checkpoint")
 			isBarrierSend := func(c *pathsim.Ctx, ev *pathsim.Event) bool {
 				if ev.Kind != pathsim.EvSend || prog.SelField(c.Info, ev.Chan) != out {
 					return false
 				}
 				return mentionsType(c.Info, ev.Value, barrierT)
 			}
-			n := r.errChecked(f.Decl, f.Name(), "createCheckpoint", "outputStream<-barrier", callTo(create.Obj), isBarrierSend)
+			n := r.errChecked(f.Decl, f.Name(), snapName, "outputStream<-barrier", isSnapshot, isBarrierSend)
 			if n == 0 {
 				r.Fail(f.Name()+":no-barrier-send", f.Decl.Pos(), nil, "processEvents never queues a checkpoint barrier on outputStream")
 			}
